@@ -279,3 +279,118 @@ func FamilyFatResidue(from, window int) []Spec {
 	}
 	return out
 }
+
+// ---------------------------------------------------------------------------
+// Sizes of what travels in the tar stream a compound file is uploaded as: one
+// member for the extended-signature metadata, one per stream, one per storage.
+
+// TarBoundaries are the powers of two an implementation would buffer a tar
+// member with (a page, io.Copy's 32 KiB, a 64 KiB read buffer, 1 MiB).
+var TarBoundaries = []int{4 << 10, 32 << 10, 64 << 10, 1 << 20}
+
+// FamilyMetaSize: the extended-signature metadata (see Spec.ExMetaSize) grows
+// with the number of streams and the length of their names. For every boundary
+// B: metadata of exactly B-2, B and B+2 bytes (its length is always even) x
+// short names (4 code units) / long names (30, some 31: the maximum) x the run
+// of streams in the root storage / in a nested storage x version. The run's
+// sizes cycle through 0, 1 and 65 bytes; two ordinary streams (one regular, one
+// mini) come first.
+func FamilyMetaSize(boundaries []int) []Spec {
+	var out []Spec
+	for _, b := range boundaries {
+		for _, delta := range []int{-2, 0, 2} {
+			for _, nameLen := range []int{4, 30} {
+				for _, inStorage := range []bool{false, true} {
+					for _, v := range []int{3, 4} {
+						s := base("metasize", v)
+						s.Streams = sizedStreams([]int{4097, 65})
+						if inStorage {
+							s.Storage = storageOf("Sub", [2]int{10, 5000})
+						}
+						target := b + delta
+						per := 24 + 2*nameLen
+						rest := target - s.ExMetaSize()
+						m := &Many{Count: rest / per, NameLen: nameLen, LongNames: (rest % per) / 2,
+							Sizes: []int{0, 1, 65}, InStorage: inStorage, MetaTarget: target}
+						s.Many = m
+						if rest < 0 || rest%2 != 0 || m.LongNames > m.Count || s.ExMetaSize() != target {
+							panic(fmt.Sprintf("cfbgen: metadata size %d not reachable with %d-unit names", target, nameLen))
+						}
+						out = append(out, s)
+					}
+				}
+			}
+		}
+	}
+	return out
+}
+
+// FamilyBigStream: one stream of B-1, B and B+1 bytes for every boundary B
+// (between two small streams in digest order) x version.
+func FamilyBigStream(boundaries []int) []Spec {
+	var out []Spec
+	for _, b := range boundaries {
+		for _, delta := range []int{-1, 0, 1} {
+			for _, v := range []int{3, 4} {
+				s := base("bigstream", v)
+				s.Streams = sizedStreams([]int{b + delta, 65, 4097})
+				out = append(out, s)
+			}
+		}
+	}
+	return out
+}
+
+// msiNameOfDecodedLen returns a name of at most 31 code units that an MSI-name
+// decoder expands to exactly n characters (n <= 186): 0x4840 stands for
+// "Table." (6 characters), a unit in 0x3800..0x47FF for two characters, a unit
+// in 0x4800..0x483F for one.
+func msiNameOfDecodedLen(n, salt int) string {
+	for x := 0; x <= 31; x++ {
+		r := n - 6*x
+		if r < 0 {
+			break
+		}
+		y, z := r/2, r%2
+		if x+y+z > 31 || x+y+z == 0 {
+			continue
+		}
+		var u []rune
+		for i := 0; i < x; i++ {
+			u = append(u, 0x4840)
+		}
+		for i := 0; i < y; i++ {
+			u = append(u, rune(0x3800+((salt*7+i*65+11)&0xFFF)))
+		}
+		for i := 0; i < z; i++ {
+			u = append(u, rune(0x4800+((salt+i+10)&0x3F)))
+		}
+		return string(u)
+	}
+	panic(fmt.Sprintf("cfbgen: no MSI-encoded name decodes to %d characters", n))
+}
+
+// FamilyTarPath: the path a stream has as a tar member is its storage path plus
+// its MSI-decoded name. Lengths either side of the limits of the tar header
+// formats: 100 bytes (the name field) as a root stream and as storage/stream;
+// 155 bytes of storage path (the ustar prefix field) with a 100-byte name, i.e.
+// 255/256/257 in all, beyond which only an extended (PAX) header can carry it.
+// x version.
+func FamilyTarPath() []Spec {
+	var out []Spec
+	for _, v := range []int{3, 4} {
+		for _, n := range []int{99, 100, 101} {
+			s := base("tarpath", v)
+			s.Streams = []Stream{{Name: "Data", Size: 65, Seed: 1}, {Name: msiNameOfDecodedLen(n, 1), Size: 300, Seed: 2}}
+			out = append(out, s)
+		}
+		for _, pair := range [][2]int{{40, 58}, {40, 59}, {40, 60}, {154, 100}, {155, 100}, {156, 100}} {
+			s := base("tarpath", v)
+			s.Streams = []Stream{{Name: "Data", Size: 65, Seed: 1}}
+			s.Storage = storageOf(msiNameOfDecodedLen(pair[0], 2), [2]int{300, 5000})
+			s.Storage.Streams[0].Name = msiNameOfDecodedLen(pair[1], 3)
+			out = append(out, s)
+		}
+	}
+	return out
+}
